@@ -30,6 +30,7 @@ pub struct GenCfg {
     pub deftype: bool,
     pub rems: bool,
     pub inkey: bool,
+    pub rnd: bool,
     pub early_exit: bool,
     pub q_spelling: bool,
     pub line_start: u16,
@@ -63,6 +64,7 @@ impl GenCfg {
             deftype: rng.pct(8),
             rems: rng.pct(40),
             inkey: false,
+            rnd: false,
             early_exit: rng.pct(30),
             q_spelling: false,
             line_start: *rng.pick(&[0u16, 1, 5, 10, 10, 10, 100, 1000]),
@@ -309,6 +311,12 @@ impl<'a> Gen<'a> {
     }
 
     pub fn sng_expr(&mut self, depth: u32) -> Expr {
+        if self.cfg.rnd && self.rng.pct(8) {
+            return Expr::Call(
+                Builtin::Int,
+                vec![Expr::bin(BinOp::Mul, Expr::Call(Builtin::Rnd, vec![Expr::Int(1)]), Expr::Int(10))],
+            );
+        }
         let leaf = depth >= 3 || self.rng.pct(45);
         if leaf {
             match self.rng.below(8) {
@@ -766,6 +774,14 @@ impl<'a> Gen<'a> {
     }
 
     // ---- structured blocks ------------------------------------------------------
+
+    /// One to four simple statements (for edit workloads).
+    pub fn simple_line_public(&mut self, out: &mut Vec<Stmt>) {
+        let n = 1 + self.rng.geometric(3) as usize;
+        for _ in 0..n {
+            out.push(self.simple());
+        }
+    }
 
     fn simple_line(&mut self, out: &mut Vec<Draft>) {
         let n = 1 + self.rng.geometric(3) as usize;
